@@ -15,16 +15,22 @@ from .poolfam import PoolFacts, queue_call
 
 
 def run(prog: Program, rep: Report):
-    pf = PoolFacts(prog)
-    r1_sentinel(prog, rep, pf)
+    from .poolfam import pool_facts
+    pf = pool_facts(prog, rep, None)
+    rep.attempt(lambda: r1_sentinel(prog, rep, pf))
     # R2 = per-call state: the C01 rules instantiated under this property
-    r1_raised_before_start(prog, rep, pf, "C03.R2a")
-    r9_call_local(prog, rep, pf, "C03.R2b")
+    rep.attempt(lambda: r1_raised_before_start(prog, rep, pf, "C03.R2a"))
+    rep.attempt(lambda: r9_call_local(prog, rep, pf, "C03.R2b"))
     from .c01 import counter_reset_per_call
-    counter_reset_per_call(prog, rep, pf, "C03.R2c")
-    r3_retire(prog, rep, pf)
-    r4_replace_order(prog, rep, pf)
-    r5_wrapped(prog, rep, pf)
+    rep.attempt(lambda: counter_reset_per_call(prog, rep, pf, "C03.R2c"))
+    rep.attempt(lambda: r3_retire(prog, rep, pf))
+    rep.attempt(lambda: r4_replace_order(prog, rep, pf))
+    rep.attempt(lambda: r5_wrapped(prog, rep, pf))
+    # "each call returns exactly its own results (C01) and terminates (C02)": the feeder's publication order and send accounting
+    from .c01 import r2_r3_feeder
+    from ..report import Report as _R
+    reset = r1_raised_before_start(prog, _R(rep.prop, rep.tier), pf, "C03.R6x")
+    rep.attempt(lambda: r2_r3_feeder(prog, rep, pf, reset, R2="C03.R6", R3="C03.R7"))
 
 
 # ---------------------------------------------------------------------------------------------- R1
@@ -74,6 +80,36 @@ def r1_sentinel(prog, rep: Report, pf: PoolFacts):
     if not vars_:
         rep.unrec("C03.R1", run_, "token", f"run() never takes an item from self.pool.{q}")
         return
+    # the replace queue has one consumer: an item taken anywhere else (a "clean start" drain in a constructor, a peek in the pool)
+    # can be the request of a worker that retired at the very end of the previous call
+    others = []
+    hosts = [pf.pool, pf.fpool, pf.replacer, pf.feeder] + ([pf.cmthread] if pf.cmthread else [])
+    seen_q = set()
+    for k in hosts:
+        for kk in k.repo_mro():
+            if kk.is_external:
+                continue
+            for g in kk.methods.values():
+                if g.qual in seen_q or g.self_name is None:
+                    continue
+                seen_q.add(g.qual)
+                if g.qual == prog.resolve(th, "run").qual:
+                    continue
+                for c in calls_in(g.node):
+                    qc = queue_call(c)
+                    try:
+                        which = pf.qid(c.func.value, g, k) if qc and qc[0] == "get" else None
+                    except Exception:
+                        which = None
+                    if which == q:
+                        others.append((g, c))
+    rep.check("C03.R1", run_, "single-consumer", not others, f"only run() of the replace thread takes items from {q}",
+              (f"{others[0][0].cls.name if others[0][0].cls else ''}.{others[0][0].name} also takes items from self.pool.{q} "
+               f"(`{src(others[0][1])[:60]}`): a replacement request that arrived after the previous call's stop token is discarded")
+              if others else "",
+              scenario="1 worker, quota 2, a call of exactly 2 chunks: the worker's request reaches the queue after stop(); the next "
+                       "call drains it, the retired worker is never replaced and the call hangs",
+              line=others[0][1].lineno if others else None)
     it = Interp(prog, _Sentinel(pf, vars_))
     ex = it.run(run_, {False}, th)
     finals = ex.normal | ex.ret
